@@ -17,6 +17,8 @@ SMOKE = [
     ('MergeMech', 'MC_Merge_addto_noenv.cfg', 'AddDisjoint'),
     ('Purity', 'MC_Purity_threadctx.cfg', 'ParsePure'),
     ('IntValue', 'MC_IntValue_smoke.cfg', None),
+    ('ChoiceMatch', 'MC_ChoiceMatch.cfg', ('ScoreInUnit', 'NoRaise')),
+    ('ChoiceMatch', 'MC_ChoiceMatch_fixed.cfg', None),
 ]
 
 
@@ -25,7 +27,7 @@ def run(work):
     for mod, cfg, expect in SMOKE:
         r = tlc.run(work, mod, cfg=cfg, timeout=900)
         got = r['violation']
-        good = (got == expect) and (r['ok'] or expect is not None)
+        good = ((got in expect) if isinstance(expect, tuple) else (got == expect)) and (r['ok'] or expect is not None)
         print('setup: smoke %s/%s: %d states, violation=%s (expected %s): %s'
               % (mod, cfg, r['distinct'], got, expect, 'ok' if good else 'FAILED'))
         if not good:
